@@ -14,6 +14,10 @@ type ClientService struct {
 	Conn      *websocket.Conn
 	Mutex     sync.Mutex
 	Responses map[string]chan []byte
+
+	// Done is closed when the service client has gone away: whoever waits for an
+	// answer of this client must stop waiting then
+	Done chan struct{}
 }
 
 type Teamserver interface {
